@@ -212,14 +212,20 @@ class TaskScenario(ScenarioData):
         """
         Get all tasks that depend on this task (successors).
 
-        These are tasks T where T's dependencies include this task.
+        These are leaf tasks T where T's dependencies - its own or those inherited from its
+        enclosing containers - name this task or one of this task's enclosing containers.
         """
+        mine = [self.property]
+        parent = self.property.parent
+        while parent:
+            mine.append(parent)
+            parent = parent.parent
+
         successors = []
         for task in self.project.tasks:
-            if not task.leaf():
+            if not task.leaf() or task is self.property:
                 continue
-            deps = task.get("depends", self.scenarioIdx) or []
-            for dep in deps:
+            for dep in self._allDependenciesOf(task):
                 if isinstance(dep, dict):
                     pred = dep.get("task")
                 elif hasattr(dep, "task"):
@@ -227,11 +233,20 @@ class TaskScenario(ScenarioData):
                 else:
                     pred = dep
 
-                if pred is self.property:
+                if any(pred is m for m in mine):
                     successors.append(task)
                     break
 
         return successors
+
+    def _allDependenciesOf(self, task: Any) -> list[Any]:
+        """Own dependencies of a task plus those of its enclosing containers."""
+        deps: list[Any] = []
+        node = task
+        while node:
+            deps.extend(node.get("depends", self.scenarioIdx) or [])
+            node = node.parent
+        return deps
 
     def _getSuccessorsWithMaxGap(self) -> list[tuple[Any, Any, Any]]:
         """
@@ -579,13 +594,23 @@ class TaskScenario(ScenarioData):
                         succ_start = successor.get("start", self.scenarioIdx)
                         if not succ_start:
                             continue
-                        # Leave room for the gap the successor asked for on this edge
-                        for dep in successor.get("depends", self.scenarioIdx) or []:
-                            if isinstance(dep, dict) and dep.get("task") is self.property and dep.get("gapduration"):
-                                from datetime import timedelta
+                        # Leave room for the largest gap the successor asked for on an edge to
+                        # this task or to one of its enclosing containers
+                        mine = [self.property]
+                        while mine[-1].parent:
+                            mine.append(mine[-1].parent)
+                        gap_hours = 0.0
+                        for dep in self._allDependenciesOf(successor):
+                            if (
+                                isinstance(dep, dict)
+                                and any(dep.get("task") is m for m in mine)
+                                and dep.get("gapduration")
+                            ):
+                                gap_hours = max(gap_hours, self._parse_duration(dep.get("gapduration"), calendar=True))
+                        if gap_hours:
+                            from datetime import timedelta
 
-                                gap_hours = self._parse_duration(dep.get("gapduration"), calendar=True)
-                                succ_start = succ_start - timedelta(hours=gap_hours)
+                            succ_start = succ_start - timedelta(hours=gap_hours)
                         if succ_start < latest_end:
                             latest_end = succ_start
 
